@@ -314,6 +314,11 @@ func (s *Sim) release(t *Task) {
 		}
 	}
 	s.running = t.g
+	if !t.spinning {
+		// running a task that is not itself waiting for a lock is progress: it may
+		// release the lock a spinner waits for without passing another yield
+		s.progress++
+	}
 	if s.cfg.Policy == PolicyRandom {
 		s.gap = int64(s.cfg.GapChoices[s.Tape.Choose(StreamSched, len(s.cfg.GapChoices))])
 	}
